@@ -31,6 +31,8 @@ CONSTANTS
     GenesisMax,                 \* MaxAuthorize set for the genesis peers during set-up
     Fund,                       \* [Addrs -> Nat]: ONT of every account after set-up
     RegPos, AuthPos, UnAuthPos, WdPos, InitDelta, FeeVals, CostVals, MaxVals,   \* argument domains of the actions
+    Authorizers, AuthTargets,   \* who authorizes / for which peers (model bound)
+    OpTargets,                  \* peers addressed by quit / black / init-pos / cost calls (model bound)
     Acts,                       \* enabled action names
     WithInvalid,                \* also generate failing calls
     MaxOps
@@ -314,16 +316,16 @@ ApplyCommit(r) ==
     /\ UNCHANGED <<ont, promise>>
 
 CommitRes == CommitCore(pool, prev, au, stake, pen, ont, ong, fee, splitFee, attr)
-Commit == /\ CommitRes.ok /\ ApplyCommit(CommitRes) /\ UNCHANGED black
+Commit == \E r \in {CommitRes} : r.ok /\ ApplyCommit(r) /\ UNCHANGED black
 
 \* blackNode: status Black + black list; a consensus peer triggers executeCommitDpos in the same call
 BlackPool(p) == [pool EXCEPT ![p].st = BlackSt]
 BlackRes(p) == CommitCore(BlackPool(p), prev, au, stake, pen, ont, ong, fee, splitFee, attr)
 BlackOK(p) == pool[p].st # NoneSt /\ (pool[p].st = ConsSt => BlackRes(p).ok)
 Black(p) ==
-    /\ BlackOK(p)
+    /\ pool[p].st # NoneSt
     /\ black' = black \cup {p}
-    /\ IF pool[p].st = ConsSt THEN ApplyCommit(BlackRes(p))
+    /\ IF pool[p].st = ConsSt THEN \E r \in {BlackRes(p)} : r.ok /\ ApplyCommit(r)
        ELSE /\ pool' = BlackPool(p)
             /\ UNCHANGED <<prev, au, stake, pen, ont, ong, fee, splitFee, attr, promise>>
 
@@ -390,38 +392,40 @@ Next ==
        \/ \E p \in CandPeers, m \in MaxVals : On("SetMax") /\
             LET a == [name |-> "SetMax", p |-> p, a |-> OwnerOf[p], x |-> m, ok |-> TRUE]
             IN IF SetMaxOK(p, OwnerOf[p], m) THEN SetMax(p, OwnerOf[p], m) /\ Step(a) ELSE Failing(a)
-       \/ \E ad \in Addrs, p \in Peers, x \in AuthPos : On("Authorize") /\
+       \/ \E ad \in Authorizers, p \in AuthTargets, x \in AuthPos : On("Authorize") /\
             LET a == [name |-> "Authorize", a |-> ad, p |-> p, x |-> x, ok |-> TRUE]
             IN IF AuthorizeOK(ad, p, x) THEN Authorize(ad, p, x) /\ Step(a) ELSE Failing(a)
-       \/ \E ad \in Addrs, p \in Peers, x \in UnAuthPos : On("UnAuthorize") /\ BkSum(au[p][ad]) > 0 /\
+       \/ \E ad \in Authorizers, p \in AuthTargets, x \in UnAuthPos : On("UnAuthorize") /\ BkSum(au[p][ad]) > 0 /\
             LET a == [name |-> "UnAuthorize", a |-> ad, p |-> p, x |-> x, ok |-> TRUE]
             IN IF UnAuthorizeOK(ad, p, x) THEN UnAuthorize(ad, p, x) /\ Step(a) ELSE Failing(a)
        \/ \E ad \in Addrs, p \in Peers, x \in WdPos : On("Withdraw") /\ BkSum(au[p][ad]) > 0 /\
             LET a == [name |-> "Withdraw", a |-> ad, p |-> p, x |-> x, ok |-> TRUE]
             IN IF WithdrawOK(ad, p, x) THEN Withdraw(ad, p, x) /\ Step(a) ELSE Failing(a)
-       \/ \E p \in Peers : On("Quit") /\ pool[p].st # NoneSt /\
+       \/ \E p \in OpTargets : On("Quit") /\ pool[p].st # NoneSt /\
             LET a == [name |-> "Quit", p |-> p, a |-> OwnerOf[p], ok |-> TRUE]
             IN IF QuitOK(p, OwnerOf[p]) THEN Quit(p, OwnerOf[p]) /\ Step(a) ELSE Failing(a)
-       \/ \E p \in Peers : On("Black") /\
+       \/ \E p \in OpTargets : On("Black") /\
             LET a == [name |-> "Black", p |-> p, ok |-> TRUE]
-            IN IF BlackOK(p) THEN Black(p) /\ Step(a) ELSE Failing(a)
+            IN \/ Black(p) /\ Step(a)
+               \/ ~BlackOK(p) /\ Failing(a)
        \/ \E p \in Peers : On("White") /\ p \in black /\ White(p) /\ Step([name |-> "White", p |-> p, ok |-> TRUE])
        \/ On("Commit") /\
             LET a == [name |-> "Commit", ok |-> TRUE]
-            IN IF CommitRes.ok THEN Commit /\ Step(a) ELSE Failing(a)
-       \/ \E p \in Peers, x \in InitDelta : On("AddInit") /\ pool[p].st # NoneSt /\
+            IN \/ Commit /\ Step(a)
+               \/ ~CommitRes.ok /\ Failing(a)
+       \/ \E p \in OpTargets, x \in InitDelta : On("AddInit") /\ pool[p].st # NoneSt /\
             LET a == [name |-> "AddInit", p |-> p, a |-> OwnerOf[p], x |-> x, ok |-> TRUE]
             IN IF AddInitOK(p, OwnerOf[p], x) THEN AddInit(p, OwnerOf[p], x) /\ Step(a) ELSE Failing(a)
-       \/ \E p \in Peers, x \in InitDelta : On("ReduceInit") /\ pool[p].st # NoneSt /\
+       \/ \E p \in OpTargets, x \in InitDelta : On("ReduceInit") /\ pool[p].st # NoneSt /\
             LET a == [name |-> "ReduceInit", p |-> p, a |-> OwnerOf[p], x |-> x, ok |-> TRUE]
             IN IF ReduceInitOK(p, OwnerOf[p], x) THEN ReduceInit(p, OwnerOf[p], x) /\ Step(a) ELSE Failing(a)
-       \/ \E p \in Peers, c \in CostVals : On("SetCost") /\ pool[p].st # NoneSt /\
+       \/ \E p \in OpTargets, c \in CostVals : On("SetCost") /\ pool[p].st # NoneSt /\
             SetCost(p, OwnerOf[p], c) /\ Step([name |-> "SetCost", p |-> p, a |-> OwnerOf[p], x |-> c[1], y |-> c[2], ok |-> TRUE])
        \/ \E x \in FeeVals : On("Fee") /\ Fee(x) /\ Step([name |-> "Fee", x |-> x, ok |-> TRUE])
        \/ \E ad \in Addrs : On("WithdrawFee") /\ fee[ad] > 0 /\
             LET a == [name |-> "WithdrawFee", a |-> ad, ok |-> TRUE]
             IN IF WithdrawFeeOK(ad) THEN WithdrawFee(ad) /\ Step(a) ELSE Failing(a)
-       \/ \E p \in Peers, ad \in Addrs : On("TransferPenalty") /\ pen[p] > 0 /\
+       \/ \E p \in Peers, ad \in Authorizers : On("TransferPenalty") /\ pen[p] > 0 /\
             LET a == [name |-> "TransferPenalty", p |-> p, a |-> ad, ok |-> TRUE]
             IN IF TransferPenaltyOK(p, ad) THEN TransferPenalty(p, ad) /\ Step(a) ELSE Failing(a)
 
@@ -452,9 +456,9 @@ Withdrawable == /\ splitFee = SumSet(Addrs, LAMBDA a : fee[a])
                 /\ splitFee <= ong["gov"]
 \* a commit can never be in the situation where the real code panics (division by zero, balance < splitFee)
 \* or wraps (remainAmount := nodeAmount - sumAmount below zero), nor where the holders' shares exceed the whole
-NoWrap == ~CommitRes.anomaly /\ ~CommitRes.over
+NoWrap == \A r \in {CommitRes} : ~r.anomaly /\ ~r.over
 \* the same for the settlement that blackNode triggers on a consensus peer (checked in the thorough configuration)
-NoWrapBlack == \A p \in Peers : pool[p].st = ConsSt => (~BlackRes(p).anomaly /\ ~BlackRes(p).over)
+NoWrapBlack == \A p \in Peers : pool[p].st = ConsSt => \A r \in {BlackRes(p)} : ~r.anomaly /\ ~r.over
 \* an epoch settlement credits (nodes + holders + dapp) no more than the income it splits
 SplitBounded == [][ (act'.name \in {"Commit", "Black"} /\ act'.ok) =>
                       /\ splitFee' - splitFee + (ong'["dapp"] - ong["dapp"]) <= ong["gov"] - splitFee
